@@ -154,9 +154,9 @@ fn build_column_array(
             Ok(Arc::new(BooleanArray::from(values)))
         }
         DataType::Null => {
-            // All nulls
-            let values: Vec<Option<i32>> = vec![None; tuples.len()];
-            Ok(Arc::new(Int32Array::from(values)))
+            // All nulls: the schema declares this column as Arrow `Null`, so the array
+            // must have that type too (an Int32 array is rejected by RecordBatch::try_new)
+            Ok(Arc::new(arrow::array::NullArray::new(tuples.len())))
         }
         DataType::Vector { dim } => {
             // Build array from vectors - use FixedSizeList when dimension is known
@@ -201,12 +201,13 @@ fn build_column_array(
             }
         }
         DataType::Timestamp => {
-            // Timestamps stored as Int64 (Unix milliseconds)
+            // Timestamps are Unix milliseconds; stored with their own Arrow type so that
+            // they are read back as timestamps, not as plain integers
             let values: Vec<Option<i64>> = tuples
                 .iter()
                 .map(|t| t.get(col_idx).and_then(super::Value::as_timestamp))
                 .collect();
-            Ok(Arc::new(Int64Array::from(values)))
+            Ok(Arc::new(arrow::array::TimestampMillisecondArray::from(values)))
         }
         DataType::VectorInt8 { dim } => {
             // Build array from int8 vectors - use FixedSizeList when dimension is known
@@ -255,8 +256,14 @@ fn build_column_array(
 
 /// Extract a Value from an Arrow array at a given index
 fn extract_value_from_array(array: &dyn Array, row_idx: usize) -> Result<Value, ArrowConvertError> {
-    if array.is_null(row_idx) {
+    if array.is_null(row_idx) || array.as_any().is::<arrow::array::NullArray>() {
         return Ok(Value::Null);
+    }
+    if let Some(arr) = array
+        .as_any()
+        .downcast_ref::<arrow::array::TimestampMillisecondArray>()
+    {
+        return Ok(Value::Timestamp(arr.value(row_idx)));
     }
 
     // Try each array type
@@ -335,7 +342,7 @@ fn empty_array_for_type(dt: &DataType) -> ArrayRef {
         DataType::Float64 => Arc::new(Float64Array::from(Vec::<f64>::new())),
         DataType::String => Arc::new(StringArray::from(Vec::<&str>::new())),
         DataType::Bool => Arc::new(BooleanArray::from(Vec::<bool>::new())),
-        DataType::Null => Arc::new(Int32Array::from(Vec::<Option<i32>>::new())),
+        DataType::Null => Arc::new(arrow::array::NullArray::new(0)),
         DataType::Vector { dim } => {
             let field = Arc::new(Field::new("item", ArrowDataType::Float32, false));
             if let Some(fixed_dim) = dim {
@@ -378,7 +385,7 @@ fn empty_array_for_type(dt: &DataType) -> ArrayRef {
                 ))
             }
         }
-        DataType::Timestamp => Arc::new(Int64Array::from(Vec::<i64>::new())),
+        DataType::Timestamp => Arc::new(arrow::array::TimestampMillisecondArray::from(Vec::<i64>::new())),
     }
 }
 
